@@ -111,7 +111,9 @@ func (m *hotReloadManager) buildDevServer() (*http.Server, bool, error) {
 			path := wsRoute.Path
 			// Convert :param to {param} for Go's http.ServeMux pattern matching
 			muxPattern := server.ConvertPatternToMuxFormat(path)
-			mux.HandleFunc(muxPattern, wsServer.HandleWebSocketWithPattern(path))
+			if err := mountOnMux(mux, muxPattern, wsServer.HandleWebSocketWithPattern(path)); err != nil {
+				return nil, false, fmt.Errorf("WebSocket route %s: %w", path, err)
+			}
 			printInfo(fmt.Sprintf("WebSocket endpoint: ws://localhost:%d%s", m.port, path))
 		}
 	}
